@@ -1411,12 +1411,21 @@ func ruleC08_6(c *Ctx, r *Rep) {
 		}
 		return false
 	}
-	// every call that prints (part of) the sub-condition: receiver reached through the Sub field
+	// every call that prints (part of) the sub-condition: receiver reached through the Sub field — in the method, or
+	// in a private helper it hands the sub-condition to (`appendSub(w, e.Sub)`), which is then the function judged
 	var subs []*ssa.Call
-	for _, ci := range callsIn(fn, false, func(cal *ssa.Function, _ ssa.CallInstruction) bool { return cal.Name() == "AsFilter" }) {
-		call := ci.(*ssa.Call)
-		if len(call.Call.Args) > 0 && sources(call.Call.Args[0])["field:Sub"] {
-			subs = append(subs, call)
+	anchorFn := fn
+	for _, g := range c.opFuncs(anchorFn) {
+		var found []*ssa.Call
+		for _, ci := range callsIn(g, false, func(cal *ssa.Function, _ ssa.CallInstruction) bool { return cal.Name() == "AsFilter" }) {
+			call := ci.(*ssa.Call)
+			if len(call.Call.Args) > 0 && sources(call.Call.Args[0])["field:Sub"] {
+				found = append(found, call)
+			}
+		}
+		if len(found) > 0 {
+			subs, fn = found, g
+			break
 		}
 	}
 	if len(subs) == 0 {
@@ -1473,7 +1482,7 @@ func ruleC08_6(c *Ctx, r *Rep) {
 	// preceded by the write of "NOT " (or "-"). Folding the negation into the printed comparison instead
 	// (`NOT a = "v"` as `a != "v"`) changes the meaning: both comparisons are false when the attribute is absent.
 	var negWrites []ssa.Instruction
-	for _, b := range fn.Blocks {
+	for _, b := range anchorFn.Blocks {
 		for _, in := range b.Instrs {
 			ci, ok := in.(ssa.CallInstruction)
 			if !ok || !ci.Common().IsInvoke() {
@@ -1492,8 +1501,8 @@ func ruleC08_6(c *Ctx, r *Rep) {
 		}
 	}
 	negOK := len(negWrites) > 0
-	var negPos token.Pos = fn.Pos()
-	for _, ret := range returnsOf(fn) {
+	var negPos token.Pos = anchorFn.Pos()
+	for _, ret := range returnsOf(anchorFn) {
 		if !mayReturnNilError(ret) {
 			continue
 		}
